@@ -55,8 +55,8 @@ func (in *Interp) nondetBytes(name string, min, max int64, lenOnly bool, physOve
 		ln = ts.Const(64, uint64(max))
 	} else {
 		ln = ts.Var(fmt.Sprintf("%s#%d.len", name, seq), BV(64))
+		in.assumeX(ts.And(ts.Ule(ts.Const(64, uint64(min)), ln), ts.Ule(ln, ts.Const(64, uint64(max)))), "len range of "+name)
 		in.vrange[ln.id] = [2]uint64{uint64(min), uint64(max)}
-		in.assume(ts.And(ts.Ule(ts.Const(64, uint64(min)), ln), ts.Ule(ln, ts.Const(64, uint64(max)))), "len range of "+name)
 	}
 	var o *Obj
 	if lenOnly {
@@ -600,6 +600,9 @@ func (in *Interp) sprintf(full string, args []Value) (Value, bool) {
 func (in *Interp) symbolicNow(fn *ssa.Function) Value {
 	ts := in.ts
 	res := in.zero(fn.Signature.Results().At(0).Type()).(*StructV)
+	if in.inInit > 0 {
+		return res
+	}
 	// fields: wall uint64, ext int64, loc *Location
 	in.nowSeq++
 	nsec := in.ts.Var(fmt.Sprintf("now%d.nsec", in.nowSeq), BV(64))
@@ -651,10 +654,10 @@ func (in *Interp) prelude(fn *ssa.Function, name string, args []Value) (Value, b
 			return ts.Const(64, uint64(lo)), true
 		}
 		t := in.nondetScalar(in.cstr(args[0]), "int", 64)
+		in.assumeX(ts.And(ts.Sle(ts.Const(64, uint64(lo)), t), ts.Sle(t, ts.Const(64, uint64(hi)))), "zzIntIn "+in.cstr(args[0]))
 		if lo >= 0 {
 			in.vrange[t.id] = [2]uint64{uint64(lo), uint64(hi)}
 		}
-		in.assume(ts.And(ts.Sle(ts.Const(64, uint64(lo)), t), ts.Sle(t, ts.Const(64, uint64(hi)))), "zzIntIn "+in.cstr(args[0]))
 		return t, true
 	case "zzBytes", "zzBytesLO":
 		min, max := in.cint(args[1]), in.cint(args[2])
@@ -751,6 +754,17 @@ func (in *Interp) prelude(fn *ssa.Function, name string, args []Value) (Value, b
 		return ts.And(args[0].(*Term), args[1].(*Term)), true
 	case "zzOr":
 		return ts.Or(args[0].(*Term), args[1].(*Term)), true
+	case "zzAt":
+		s := args[0].(SliceV)
+		i := args[1].(*Term)
+		if s.O == nil {
+			return ts.Const(8, 0), true
+		}
+		idx := ts.Add(s.Off, i)
+		if idx.IsConst() && idx.Val >= uint64(s.O.phys) {
+			return ts.Const(8, 0), true
+		}
+		return in.readCell(s.O, idx), true
 	case "zzNote":
 		in.note(in.cstr(args[0]))
 		return nil, true
